@@ -55,6 +55,7 @@ class Check(PropertyCheck):
                     ts.append(gen.place(t, self.rng.below(9), self.rng.below(5)))
             if self.rng.chance(1, 8):
                 ts.append(t + "\n\n" + gen.place(t, self.rng.range(1, 12), 0))
+        ts += [gen.zoo(self.rng) for _ in range(n // 4)]
         self.rng.shuffle(ts)
         ts += [t for _, t in gen.bundled()[: self.scale(3, 8)]]
         return ts
